@@ -110,12 +110,43 @@ def null_tests(f, K):
     return out
 
 
-def deref_roots(f, K):
+_REQ_CACHE = {}
+
+
+def requires_non_null(prog, gname, j, depth=0):
+    """does function gname dereference its j-th parameter (->, [], *, memset/memcpy destination, or by handing it to a
+    callee that does) without ever comparing it with NULL?"""
+    ck = (gname, j)
+    if ck in _REQ_CACHE:
+        return _REQ_CACHE[ck]
+    _REQ_CACHE[ck] = False
+    if prog is None or not prog.has_fn(gname) or depth > 2:
+        return False
+    cands = prog.functions.get(gname, [])
+    if len(cands) != 1:
+        return False            # several definitions (legacy copies): not resolved here
+    g = cands[0]
+    if j >= len(g.params) or "*" not in (g.params[j].get("t") or ""):
+        return False
+    K = "P:%d" % j
+    if null_tests(g, K):
+        return False
+    out = bool(deref_roots(g, K, _depth=depth + 1))
+    _REQ_CACHE[ck] = out
+    return out
+
+
+def deref_roots(f, K, _depth=0):
     out = []
+    prog = getattr(f, "prog", None)
     for b, i, r in f.roots():
         hit = False
         for x in walk(r):
             k = x.get("k")
+            if k == "call" and x.get("c") and x.get("c") not in MEMFILL and prog is not None and _depth <= 2:
+                for j, a in enumerate(x.get("a", [])):
+                    if key(f, a) == K and requires_non_null(prog, x["c"], j, _depth):
+                        hit = True
             if k == "mem" and x.get("arrow") and key(f, x["b"]) == K:
                 hit = True
             elif k == "idx" and key(f, x["b"]) == K:
@@ -267,7 +298,7 @@ def destructor_releases_fields(prog, res, rule, table, alloc_like):
                       "field %s.%s receives an allocation (in %s) but %s never releases it" % (rec, fld, who, dtor))
 
 
-def destructor_null_tolerant(prog, res, rule, table):
+def destructor_null_tolerant(prog, res, rule, table, exceptions=None):
     """the destructor (and the listed helpers it passes the object to) must tolerate a
     partially constructed object: a pointer field is dereferenced only after a NULL test."""
     for rec, (dtor, helpers, fields) in sorted(table.items()):
@@ -289,6 +320,9 @@ def destructor_null_tolerant(prog, res, rule, table):
                         continue
                     edges = null_tests(g, K)
                     ok = g.must_pass(via_edges=set(edges), targets=der)
+                    if not ok and exceptions and (name, fld) in exceptions:
+                        res.ok(rule, "%s:%s.%s" % (name, rec, fld), g.loc, "frozen exception: " + exceptions[(name, fld)])
+                        continue
                     res.check(ok, rule, "%s:%s.%s" % (name, rec, fld), g.loc, "dereferenced only after a NULL test",
                               "%s dereferences %s.%s without testing it: after a failed allocation of that field the destructor crashes"
                               % (name, rec, fld))
